@@ -202,14 +202,37 @@ J gen(uint64_t seed, bool thorough) {
       return make_bias(tmpl, r, sub, rg, 30, name).config;
     }
   };
+  // half of the plans work with an index file: a valid one first, later (as a fault) one that redefines its group differently
+  bool use_index = r.chance(0.5);
+  std::string idx_atoms;
+  if (use_index) {
+    std::vector<std::vector<int>> g = pick_groups(r, ec.natoms, 1, 3);
+    for (int a : g[0]) idx_atoms += " " + std::to_string(a + 1);
+    J op = J::obj(); op["w"] = 0; op["op"] = "global"; op["name"] = "idx0"; op["config"] = "indexFile idx0.ndx\n";
+    J put = J::obj(); put["idx0.ndx"] = "[ grp ]\n" + idx_atoms + "\n"; op["put"] = put; ops.push(op); sig += "I";
+  }
+  auto add_index_cv = [&]() {
+    // a variable that takes one of its groups from the index file
+    LiveCv c; c.name = "v" + std::to_string(ncv++);
+    c.spec = make_cv(r, ec.natoms, "distance", c.name);
+    place_grid(c.spec, m, T, r, (int)r.range(4, 10), 1.4);
+    c.range = {0.0, 30.0};
+    std::string cfg = c.spec.config(); size_t p = cfg.find("group1 {"); size_t q = cfg.find('}', p);
+    cfg.replace(p, q - p + 1, "group1 { indexGroup grp }");
+    J op = J::obj(); op["w"] = 0; op["op"] = "addcv"; op["name"] = c.name; op["config"] = cfg; ops.push(op); sig += "Ci";
+    // (not entered in `cvs`: the harness cannot evaluate it, so no catalogue bias is built on it; it gets its own restraint)
+    std::string bn = "p" + std::to_string(nb++); names.push_back(bn);
+    J ob = J::obj(); ob["w"] = 0; ob["op"] = "addbias"; ob["name"] = bn; ob["tmpl"] = "harm_fixed"; ob["config"] = "harmonic {\n  name " + bn + "\n  colvars " + c.name + "\n  centers " + num(r.uniform(2, 12)) + "\n  forceConstant " + num(r.uniform(0.5, 10)) + "\n}\n"; ops.push(ob);
+  };
   int ninit = (int)r.range(1, 3);
   for (int i = 0; i < ninit; i++) add_cv();
+  if (use_index && r.chance(0.6)) add_index_cv();
   int nops = (int)r.range(4, thorough ? 24 : 12);
   long steps = 0;
   for (int i = 0; i < nops; i++) {
     double u = r.unit();
     J op = J::obj(); op["w"] = 0;
-    if (u < 0.08 && cvs.size() < 4) { add_cv(); continue; }
+    if (u < 0.08 && cvs.size() < 4) { if (use_index && r.chance(0.5)) add_index_cv(); else add_cv(); continue; }
     if (u < 0.2) {
       std::string t, n; op["config"] = valid_bias(t, n);
       op["op"] = "addbias"; op["name"] = n; op["tmpl"] = t; sig += "B";
@@ -232,6 +255,14 @@ J gen(uint64_t seed, bool thorough) {
           if (q != std::string::npos) cfg.replace(q, 5 + n.size(), "name " + taken);
           op["config"] = cfg; label = "name=taken";
         } else op["config"] = mutate(cfg, r, false, ec.natoms, label);
+      } else if (use_index && r.chance(0.6)) {
+        // an index file that redefines the group with other atoms (refused), or defines it again identically (accepted)
+        std::string fname = "idx" + std::to_string(1 + nbad) + ".ndx"; bool same = r.chance(0.25);
+        std::string atoms = idx_atoms; if (!same) { std::vector<std::vector<int>> g = pick_groups(r, ec.natoms, 1, 3); atoms.clear(); for (int a : g[0]) atoms += " " + std::to_string(a + 1); atoms += " " + std::to_string(1 + (int)r.below((uint64_t)ec.natoms)); }
+        op["op"] = "bad"; op["name"] = "g" + std::to_string(nbad++); op["what"] = "global";
+        label = same ? "indexFile:same_group_again" : "indexFile:group_redefined";
+        op["config"] = "indexFile " + fname + "\n";
+        J put = J::obj(); put[fname] = "[ grp ]\n" + atoms + "\n"; op["put"] = put;
       } else {
         op["op"] = "bad"; op["name"] = "g" + std::to_string(nbad++); op["what"] = "global";
         label = k_global_bad[r.below(sizeof k_global_bad / sizeof *k_global_bad)];
@@ -296,6 +327,8 @@ Outcome execute(J const &plan, std::vector<bool> const *skip, RunResult &res, bo
     J const &op = ops.a[i];
     std::string k = op.at("op").as_str(), nm = op.at("name").as_str();
     cvm::clear_error();
+    if (op.has("put")) for (auto const &kv : op.at("put").o) fs().put("/simfs/w0/" + kv.first, kv.second.as_str());
+    if (k == "global") { e->run_script({"cv", "config", op.at("config").as_str()}); continue; }
     if (k == "addcv" || k == "addbias" || k == "bad") {
       size_t before = n_objects();
       uint64_t nerr0 = e->n_err;
@@ -421,7 +454,7 @@ Property make() {
   p.stub_components = {"MD engine (kinematic)", "file system (sim::FS)"};
   p.gen = gen; p.run = run; p.plan_features = plan_features;
   p.quick_runs = 6000; p.thorough_runs = 150000; p.quick_secs = 70; p.thorough_secs = 900;
-  p.run_timeout_s = 8;
+  p.run_timeout_s = 8; p.confirm_timeout_factor = 1;   // (the recorded hang allocates without bound while it loops: do not let a replay run for long)
   return p;
 }
 Registrar reg(make());
